@@ -197,7 +197,15 @@ func c07LineCase(w *mon.Worker, r *rand.Rand) mon.Result {
 	if r.IntN(3) == 0 {
 		return c07MultiDelete(d, r)
 	}
-	switch r.IntN(35) {
+	switch r.IntN(38) {
+	case 35:
+		// a position counted from the end that lies before the start does not exist: the update is refused or changes
+		// nothing - it is not the first element
+		u = upd{expr: fmt.Sprintf(`del(.%s[-%d])`, seq, d.seqLen[seq]+1+r.IntN(3)), cut: nil}
+	case 36:
+		u = upd{expr: fmt.Sprintf(`.%s[-%d] = "zz_w"`, seq, d.seqLen[seq]+1+r.IntN(3)), cut: nil}
+	case 37:
+		u = upd{expr: fmt.Sprintf(`.%s[-%d] |= "zz_u"`, seq, d.seqLen[seq]+1+r.IntN(3)), cut: nil}
 	case 29:
 		// a key that differs from an existing one in its last digit is a new key: one line comes in, nothing else moves
 		u = upd{expr: `.owners += {123456789012345679: "bob"}`, addOne: true}
